@@ -25,6 +25,7 @@ def run_catalogue(prop, only=None, verbose=True):
             front.REPO = d
             front._cache.clear()
             ck = check.Checker(prop, 'quick', 0)
+            ck.no_retry = True
             ck.generate()
             ck.discharge()
             failed = []
